@@ -336,14 +336,20 @@ func init() {
 			}
 			c, err := net.ListenUDP("udp", ua)
 			if err != nil {
-				return "bind-error " + strings.ReplaceAll(err.Error(), " ", "_")
+				// the address is taken (another check process on this machine, most likely): this case cannot be
+				// observed; it and everything up to the next cfg is reported as not run
+				w.close()
+				vW = nil
+				return "not-run"
 			}
 			w.udp = append(w.udp, &vObsUDP{addr: o[0], conn: c})
 		}
 		for _, o := range items(m["obstcp"]) {
 			ln, err := net.Listen("tcp", o[0])
 			if err != nil {
-				return "bind-error " + strings.ReplaceAll(err.Error(), " ", "_")
+				w.close()
+				vW = nil
+				return "not-run"
 			}
 			w.tcp = append(w.tcp, &vObsTCP{addr: o[0], ln: ln})
 		}
@@ -352,6 +358,9 @@ func init() {
 	})
 	vReg("pipe proxy", func(a []string) string {
 		w := vW
+		if w == nil {
+			return "not-run"
+		}
 		m := kv(a)
 		lst, rcvd := parseListener(m["lst"])
 		p := NewProxy(w.name, w.timeout, lst.addr, w.keep, w.route, w.resolver, w.learn, rcvd, m["mustrr"] == "1")
@@ -378,6 +387,9 @@ func init() {
 		return "ok"
 	})
 	vReg("pipe badd", func(a []string) string {
+		if vW == nil {
+			return "not-run"
+		}
 		m := kv(a)
 		i, _ := strconv.Atoi(m["p"])
 		vW.rrs[i].AddBackend(&vBackend{addr: unhx(a[len(a)-1]), sink: &vW.sink})
@@ -385,6 +397,9 @@ func init() {
 		return "ok"
 	})
 	vReg("pipe brem", func(a []string) string {
+		if vW == nil {
+			return "not-run"
+		}
 		m := kv(a)
 		i, _ := strconv.Atoi(m["p"])
 		vW.rrs[i].RemoveBackend(unhx(a[len(a)-1]))
@@ -393,6 +408,9 @@ func init() {
 	})
 	vReg("pipe raw", func(a []string) string {
 		w := vW
+		if w == nil {
+			return "not-run"
+		}
 		m := kv(a)
 		i, _ := strconv.Atoi(m["p"])
 		p := w.proxies[i]
@@ -460,6 +478,9 @@ func init() {
 	// panic anywhere in the pipeline is caught and attributed to this input (hostile-input stream, C08).
 	vReg("pipe rawd", func(a []string) string {
 		w := vW
+		if w == nil {
+			return "not-run"
+		}
 		m := kv(a)
 		i, _ := strconv.Atoi(m["p"])
 		p := w.proxies[i]
@@ -523,6 +544,9 @@ func init() {
 	})
 	vReg("pipe state", func(a []string) string {
 		w := vW
+		if w == nil {
+			return "not-run"
+		}
 		m := kv(a)
 		i, _ := strconv.Atoi(m["p"])
 		p := w.proxies[i]
